@@ -256,6 +256,44 @@ def gen_fmt(rng, tier):
     #    the length L of every tower level, just below/above the squared power, decide how many levels are built
     for case in gen_tower(rng, tier, rs):
         yield case
+    # 5b. the lowest layer.  DigitWriter: BUFFER_LEN = 32 bytes, flushed when full and at the end, the final flush
+    #     rounds buffer_len up to a multiple of DIGIT_CHUNK_LEN = 8 and zero-fills: every length 1..72 (all residues
+    #     mod 8 and mod 32, on both sides of one and two full buffers) in a letter radix and a digit radix, both cases;
+    #     SWAR lanes: every digit value 0..35 in every lane position (the digit string cycles through all values with
+    #     a stride coprime to 8); FastDivideSmall: words at the extremes for every radix of the run
+    for r, flag in ((36, "-"), (36, "#"), (10, "-"), (11, "#"), (16, "-"), (3, "-")):
+        for L in list(range(1, 73)) if tier == "thorough" or r == 36 else [7, 8, 9, 31, 32, 33, 40, 63, 64, 65]:
+            shift = rng.randrange(r)
+            v = 0
+            for i in range(L):
+                d = (shift + 5 * i) % r
+                if i == 0 and d == 0:
+                    d = r - 1
+                v = v * r + d
+            t = "r%d" % r if r != 16 else rng.choice("xX")
+            yield Case("u.fmt" if rng.random() < 0.6 else "i.fmt", [t, 0, flag if r != 16 else "-", "none", hx(v)], nontrivial=L > dpw(r))
+    for r in rs:
+        if r in POW2:
+            continue
+        for w in [(1 << 64) - 1, (1 << 64) - r, (1 << 63), (1 << 63) - 1, r ** dpw(r) - 1, r ** dpw(r), ((1 << 64) - 1) // r * r,
+                  ((1 << 64) - 1) // r * r - 1, (1 << 32) - 1, 1 << 32, r * r - 1, r + 1]:
+            yield Case("u.fmt", ["r%d" % r, 0, "-", "none", hx(w)], nontrivial=False)
+    # 5c. Debug (`DoubleEnd`, fmt/mod.rs + non_power_two.rs): inline values print all digits, heap values the
+    #     digits_per_word most / least significant decimal digits around `..` (log_word_base + division by a power of ten
+    #     for the head, rem_by_word for the tail); `#` appends digit and bit counts; the width is ignored
+    dvals = [0, 1, 9, 10, (1 << 64) - 1, 1 << 64, (1 << 64) + 1, 10 ** 19 - 1, 10 ** 19, 10 ** 20, (1 << 128) - 1, 1 << 128, (1 << 128) + 1,
+             10 ** 38, 10 ** 38 + 1, 10 ** 39 - 1, 10 ** 39, 10 ** 39 + 1, (1 << 192) - 1, 1 << 192, 10 ** 57, 10 ** 58 - 1]
+    for k in ([40, 77, 100, 154, 200, 1000, 1233] if tier == "quick" else list(range(39, 120)) + [154, 200, 308, 1000, 1233, 5000, 20000]):
+        dvals += [10 ** k - 1, 10 ** k, 10 ** k + 1, 10 ** k + 10 ** (k // 2), 2 * 10 ** k - 1, 10 ** k - 10 ** (k - 19), 10 ** k + 10 ** 19 - 1]
+    for _ in range(40 if tier == "quick" else 3000):
+        dvals.append(nat_pattern(rng, rng.choice([2, 3, 3, 4, 5, 16, 17, 40]), rng.choice(PATTERNS)))
+    for v in dvals:
+        fl = rng.choice(["-", "-", "+", "#", "+#"])
+        w = rng.choice(["none", "none", dec(0), dec(5), dec(60)])
+        if rng.random() < 0.5:
+            yield Case("u.dbg", [fl, w, hx(v)], nontrivial=v >= (1 << 128))
+        else:
+            yield Case("i.dbg", [fl, w, hx(signed(rng, v))], nontrivial=v >= (1 << 128))
     # 6. invalid radix
     for r in [0, 1, 37, 100]:
         yield Case("u.fmt", ["r%d" % r, 0, "-", "none", "5"], nontrivial=False)
@@ -330,6 +368,50 @@ def gen_parse(rng, tier):
         yield Case("u.parse_prefix", [sb(s)])
         yield Case("i.parse_prefix", [sb(s)])
         yield Case(rng.choice(["u.parse_default", "i.parse_default"]), [sb(s), dec(rng.choice([2, 8, 16, 36, 11]))])
+    # 3b. EVERY byte 0x00..0x7f that is not a digit of the radix (control bytes, punctuation, the ASCII neighbours of the
+    #     digit/letter ranges, letters >= radix in both cases, space, DEL; `_`, `+`, `-` included: the grammar decides) and a
+    #     few multi-byte UTF-8 characters, put into a digit position: first, middle, last, and the position where the
+    #     word/chunk boundary falls; size classes word (< digits_per_word), chunk (a few words), large (> 256 words, a
+    #     sample in quick, all bytes for radix 10 and 16 in thorough); every entry point: from_str_radix (+ FromStr for 10),
+    #     from_str_with_radix_prefix, from_str_with_radix_default, UBig and IBig, with and without a sign / prefix
+    def valid_digit(b, r):
+        c = chr(b).lower()
+        return c in ALNUM and ALNUM.index(c) < r
+    brs = [2, 8, 10, 16, 36] + ([7, 11, 35] if tier == "thorough" else [rng.choice([3, 7, 11, 12, 35])])
+    for r in brs:
+        d = dpw(r)
+        bad = [bytes([b]) for b in range(0x80) if not valid_digit(b, r)] + [c.encode("utf-8") for c in NONASCII]
+        for L, cls in ((max(1, d - 1), "word"), (3 * d + 1, "chunk"), (256 * d + 5, "large")):
+            if cls == "large":
+                if tier == "quick":
+                    sample = rng.sample(bad, 8) + [b"\x10", b"\x19", b"\x00", b"\x7f", b" "]
+                elif r in (10, 16):
+                    sample = bad
+                else:
+                    sample = rng.sample(bad, 24)
+            else:
+                sample = bad
+            base_txt = to_radix(num_with_digits(rng, r, L, "random"), r).encode()
+            poss = sorted({0, len(base_txt) // 2, len(base_txt) - 1, max(0, len(base_txt) - d), min(len(base_txt) - 1, d)})
+            for bb in sample:
+                for pos in (poss if cls != "large" else rng.sample(poss, 2)):
+                    txt = base_txt[:pos] + bb + base_txt[pos + 1:]
+                    if rng.random() < 0.3:
+                        txt = bytes(mixcase(rng, txt.decode("utf-8"), 1), "utf-8") if all(x < 0x80 for x in txt) else txt
+                    sgn = rng.random() < 0.5
+                    sign = (rng.choice(["", "", "+", "-"]) if sgn else rng.choice(["", "", "+"])).encode()
+                    k = rng.randrange(4)
+                    if k <= 1:
+                        yield Case("i.parse" if sgn else "u.parse", [sb(sign + txt), dec(r)], nontrivial=cls != "word")
+                    elif k == 2 and r in (2, 8, 10, 16):
+                        pre = {2: b"0b", 8: b"0o", 16: b"0x", 10: b""}[r]
+                        yield Case("i.parse_prefix" if sgn else "u.parse_prefix", [sb(sign + pre + txt)], nontrivial=cls != "word")
+                    else:
+                        yield Case("i.parse_default" if sgn else "u.parse_default", [sb(sign + txt), dec(r)], nontrivial=cls != "word")
+        # the same bytes as a whole one-character body and next to a separator
+        for bb in bad:
+            yield Case(rng.choice(["u.parse", "i.parse"]), [sb(bb), dec(r)], nontrivial=False)
+            yield Case(rng.choice(["u.parse", "i.parse"]), [sb(b"1_" + bb + b"_1"), dec(r)], nontrivial=False)
     for r in [0, 1, 37, 1000]:
         yield Case("u.parse", [sb("1"), dec(r)], nontrivial=False)
         yield Case("i.parse", [sb("-1"), dec(r)], nontrivial=False)
@@ -437,7 +519,37 @@ def gen_chunks(rng, tier):
         yield Case("u.from_chunks", [dec(k)] + [hx(c) for c in cs], nontrivial=cnt * k > 128)
 
 
+def gen_fastdiv(rng, tier):
+    """radix::FastDivideSmall = num_modular::PreMulInv1by1<Word> driven directly (new: m, shift; div_rem) at the four word
+    sizes the type exists for: divisors 2..36 (the radices), 2^k-1, 2^k, 2^k+1 (both sides of every value of n = ceil log2 d),
+    the largest divisors, random ones; dividends 0, 1, around d and 2d, the largest multiple of d and its neighbours, 2^W-1,
+    2^(W-1), random.  Thorough: W = 8 exhaustively (every divisor x every dividend)."""
+    for W in (8, 16, 32, 64):
+        M = (1 << W) - 1
+        ds = set(range(2, 37))
+        for k in range(1, W + 1):
+            ds.update([(1 << k) - 1, 1 << k, (1 << k) + 1])
+        ds.update([M, M - 1, (M + 1) // 2 + 1, (M + 1) // 3, 10 ** (len(str(M)) - 1)])
+        for _ in range(6 if tier == "quick" else 200):
+            ds.add(rng.getrandbits(rng.randrange(2, W + 1)))
+        ds = sorted(d for d in ds if 2 <= d <= M)
+        if tier == "quick" and W != 64:
+            ds = [d for d in ds if d <= 36] [::5] + rng.sample(ds, 25)
+        for d in ds:
+            As = {0, 1, d - 1, d, d + 1, 2 * d - 1, 2 * d, (M // d) * d - 1, (M // d) * d, (M // d) * d + 1, M, M - 1, 1 << (W - 1), (1 << (W - 1)) - 1}
+            for _ in range(2 if tier == "quick" else 6):
+                As.add(rng.getrandbits(W))
+                As.add(rng.getrandbits(rng.randrange(1, W + 1)))
+            for a in sorted(x for x in As if 0 <= x <= M):
+                yield Case("t.fastdiv", [dec(W), hx(d), hx(a)], nontrivial=d > 36 or W != 64)
+    if tier == "thorough":
+        for d in range(2, 256):
+            for a in range(256):
+                yield Case("t.fastdiv", [dec(8), hx(d), hx(a)], nontrivial=True)
+
+
 def generate(rng, tier):
+    yield from gen_fastdiv(rng, tier)
     yield from gen_fmt(rng, tier)
     yield from gen_parse(rng, tier)
     yield from gen_bytes(rng, tier)
@@ -498,8 +610,19 @@ RULE = ("fmt: for each radix (quick: 2,8,10,16,36 + 5 drawn by rng; thorough: al
         "parse: texts of numbers with the same digit lengths (parse thresholds digits_per_word, 256x, 512x) with random letter case, "
         "signs, underscores, leading zeros, radix prefixes (lower and upper case, with and without digits, with all default radices), "
         "and a malformed stream (empty, sign only, underscores only, doubled signs, digit >= radix at chunk boundaries, valid multi-byte "
-        "UTF-8 non-digits, ASCII neighbours of the digit ranges, invalid radices). bytes: every length 0..40 x top byte "
+        "UTF-8 non-digits, ASCII neighbours of the digit ranges, invalid radices); exhaustive non-digit stream: for radices 2,8,10,16,36 (+1 drawn; "
+        "thorough +7,11,35) EVERY byte 0x00..0x7f that is not a digit of the radix and 8 multi-byte characters replaces a digit at the first, "
+        "middle, last and word-boundary positions of word-, chunk- and (sampled) large-size texts, through from_str_radix/FromStr, "
+        "from_str_with_radix_prefix and from_str_with_radix_default of UBig and IBig, with signs and prefixes, plus alone and between separators. bytes: every length 0..40 x top byte "
         "{00,7f,80,ff,random} x body {random,zero,ff} for the four decoders; +-2^(8k), 2^(8k)+-1, 2^(8k-1), ... for the encoders. "
+        "low layer: digit strings of every length 1..72 (quick: all for radix 36, boundary lengths 7..9, 31..33, 40, 63..65 for 10/11/16/3) cycling "
+        "through all digit values in all 8 lane positions, both letter cases (DigitWriter full-buffer and final-flush paths, every SWAR lane/value); "
+        "extreme words (2^64-1, 2^63, multiples of the radix +-1, range_per_word +-1) for the reciprocal division in every radix. "
+        "fastdiv: num-modular PreMulInv1by1<u8|u16|u32|u64> driven directly (multiplier m, shift, quotient, remainder compared with the mirrored "
+        "new/div_rem): divisors 2..36, 2^k-1, 2^k, 2^k+1 for every k, the largest ones, random; dividends 0, 1, d-1..d+1, 2d-1, 2d, the largest "
+        "multiple of d +-1, 2^W-1, 2^(W-1), random (thorough: W = 8 exhaustively). "
+        "debug: {:?} / {:+?} / {:#?} with and without width on 0, word/dword boundaries, 10^k and 10^k +-1, 2*10^k-1, 10^k +- 10^(k-19) "
+        "for k = 40..1233 (thorough: 39..120 and up to 20000), random heap values. "
         "chunks: sizes {0,1,2,7,8,63,64,65,127,128,129,192,200,256,320} x 0..8-word values; from_chunks with oversized chunks. "
         "Non-trivial := more digits than one word holds / a padding width above the text length / heap values; distinct := distinct case lines.")
 
@@ -535,15 +658,30 @@ REFINED = [
     "all radices, all (even) word sizes (medium_on_words, write_chunk_on_words, dword_split_on_words)",
     "{:#b} {:#o} {:#x} {:#X} (optionally +) -> from_str_with_radix_prefix returns the same integer and the prefix's radix "
     "(print_prefix_parse_round_trip); digit strings differing only by `_` separators parse alike (parse_underscores_ignored)",
+    "radix::FastDivideSmall = num_modular::PreMulInv1by1<Word> (num-modular 0.6.5 barrett.rs): `new` (n = ceil log2 d, ones(n), the double-word "
+    "division giving m, both debug_assert!s, every Word operation checked) and `div_rem` (multiply-high, a - t, add-and-halve, >> shift, "
+    "a - q*d, all checked) mirrored on words in Model/Text/FmtLow.lean = (a / d, a % d) for EVERY word size, divisor 2 <= d < 2^W and word "
+    "(fast_divide_small_exact); PreparedWord::new, get_digit and the middle loop of PreparedDword::new run on it in the driver "
+    "(raw_digits_on_mirrored_division); additionally the real num-modular type is driven DIRECTLY (op t.fastdiv) at W = 8, 16, 32, 64 and its "
+    "private fields m / shift, quotient and remainder are compared with the mirrored new / div_rem",
+    "arch/generic/digits.rs digit_chunk_raw_to_ascii: the SWAR trick on one Word (0x76*ALL_ONES + word, >> 7, & ALL_ONES, * case, "
+    "+ ALL_ONES*b'0'), every operation overflow-checked = per-byte conversion on ALL lanes, all digits < 36, every W = 8k; the lane mask "
+    "((…)>>7)&ALL_ONES = [digit >= 10] per lane (swar_digit_chunk). Constants 0xff / 0x76 / 7 / b'0' / DigitCase discriminants / BUFFER_LEN_MIN "
+    "are regenerated from the source on every run (Dashu/Gen/TextLow.lean, Tie A) and called by the model (low_layer_constants_regenerated)",
+    "fmt/digit_writer.rs DigitWriter::{write, flush} with the real flush (round_up to DIGIT_CHUNK_LEN, zero fill inside [u8; BUFFER_LEN], "
+    "chunks_exact_mut, SWAR per chunk, first buffer_len bytes out): invariant buffer_len < BUFFER_LEN, rounded <= BUFFER_LEN, all pending bytes "
+    "raw digits; output = per-byte conversion of the concatenated writes (digit_writer_write_invariant, digit_writer_swar_sound); the driver "
+    "prints through it (print_on_mirrored_low_layer: = fmtModel = the reference text)",
 ]
 FRONTIER = [
-    "fast_div::FastDivideSmall::div_rem (division of a word by the radix in PreparedWord::new / get_digit; dashu's own multiply-shift "
-    "reciprocal, not exported by C02): Nat / and % here",
     "TypedRepr div_rem / sqr / pow / mul of the divide-and-conquer tower and mul_word_in_place_with_carry / UBig * and + of the parsers: "
     "C01/C02 kernels (ubig_div_rem_exact, mul theorems); Nat arithmetic here",
-    "arch::digits::digit_chunk_raw_to_ascii SWAR byte trick and DigitWriter buffering (modelled per byte)",
     "shift::shr_in_place / shl_in_place / add_in_place inside the chunk routines are builder-div's / C01's mirrored models with their proved specs (reused)",
     "big-endian byte functions modelled as mirror images (list reversal) of the little-endian ones",
+    "Debug (`{:?}`, DoubleEnd: head..tail decimal digits via log_word_base / div_rem_highest_word / rem_by_word) is driven against the "
+    "closed-form text of Model/Text/Float.lean debugInt (correspondence only, no theorem: not part of the property's clauses)",
+    "which pieces the printers hand to DigitWriter::write is not recorded by the number-level model (the driver cuts the digit string into "
+    "digits_per_word pieces); digit_writer_swar_sound holds for every sequence of writes",
 ]
 THEOREMS = ["Dashu.Props.C07." + t for t in [
     "positional_representation", "radix_table", "print_non_pow2_digits", "print_size_classes", "big_chunk_padded",
@@ -551,7 +689,9 @@ THEOREMS = ["Dashu.Props.C07." + t for t in [
     "parse_ok_sound", "parse_no_digits", "print_parse_round_trip", "print_parse_round_trip_unsigned", "le_bytes_round_trip",
     "ubig_bytes_model", "signed_bytes_round_trip", "ibig_bytes_model", "tower_length_shortcut_sound", "printer_buffers_never_overrun", "digit_writer_sound", "parser_buffers_never_overrun", "chunks_model", "chunks_round_trip", "chunks_zero_panics",
     "print_prefix_parse_round_trip", "parse_underscores_ignored",
-    "medium_on_words", "write_chunk_on_words", "dword_split_on_words"]]
+    "medium_on_words", "write_chunk_on_words", "dword_split_on_words",
+    "fast_divide_small_exact", "swar_digit_chunk", "low_layer_constants_regenerated", "digit_writer_swar_sound",
+    "digit_writer_write_invariant", "print_on_mirrored_low_layer", "raw_digits_on_mirrored_division"]]
 EXPLANATION = ("Lean theorems for every word size, radix 2..36 and integer: the printing model (all size classes of both printers) "
                "produces exactly the positional digits; the parsing model equals the documented grammar as a total function on byte "
                "strings (errors included) and parse(print) is the identity in both letter cases; format_prepared equals the "
@@ -560,9 +700,10 @@ EXPLANATION = ("Lean theorems for every word size, radix 2..36 and integer: the 
                "correspondence run only). "
                "Model and code are run side by side on structured inputs; the harness additionally compares every flag "
                "combination with Rust's primitive formatting.")
-ASSUMPTIONS = ["frontier kernels (FastDivideSmall division by the radix; multi-word division/multiplication of the divide-and-conquer "
-               "converters) behave as exact Nat arithmetic — the multi-word ones are the subject of C01/C02; the single-word divisions by "
-               "range_per_word are tied to C02's contracts by theorems",
+ASSUMPTIONS = ["frontier kernels (multi-word division/multiplication of the divide-and-conquer "
+               "converters) behave as exact Nat arithmetic — they are the subject of C01/C02; the single-word divisions by "
+               "range_per_word are tied to C02's contracts by theorems; the division by the radix (FastDivideSmall) is mirrored and proved here",
+               "Word::from_ne_bytes / to_ne_bytes modelled little-endian (the SWAR lanes do not interact, so the byte order is immaterial)",
                "core::fmt delivers the format spec fields (fill, align, flags, width) as documented"]
 LEVEL_TEXT = ("Machine-checked Lean 4 theorems about an executable model of dashu-int's text and byte converters, for all word sizes, "
               "all radices 2..36 and all integers (no size bound): printed digits = positional representation for every size class "
@@ -572,12 +713,17 @@ LEVEL_TEXT = ("Machine-checked Lean 4 theorems about an executable model of dash
               "word-level byte encoders/decoders of convert.rs (unsigned and two's complement, inline and heap paths) equal the positional "
               "specification and are mutually inverse for every integer; the chunk routines (to_chunks all three paths, chunks_to_words with its "
               "shift/add kernels and buffer sizes) equal the base-2^k digits and are mutually inverse for every chunk size k >= 1; every "
-              "fixed-size buffer of printers and parsers is modelled as a bounded array and proved never overrun. "
+              "fixed-size buffer of printers and parsers is modelled as a bounded array and proved never overrun; the lowest layer is mirrored "
+              "on machine words and is what the driver executes: the multiply-shift reciprocal division by the radix (FastDivideSmall = "
+              "num-modular PreMulInv1by1) is exact for every divisor 2 <= d < 2^W and every word, the SWAR digit->ASCII routine equals the "
+              "per-byte conversion on all lanes for all digits < 36 with no Word overflow, and the buffered DigitWriter with its real flush "
+              "delivers exactly the converted digits for any sequence of writes. "
               "The hand-written model is tied to /repo on every run by differential "
               "execution (model vs real code) over all thresholds of both converters and a malformed-text stream, plus a direct "
               "comparison of all flag combinations with Rust's primitive integer formatting.")
 LEVEL_NOTE = ("Trusted: Lean kernel; axioms propext/Classical.choice/Quot.sound; the correspondence harness and generators (sampling) "
               "for the tie model<->code; division/multiplication kernels used inside the converters are exact arithmetic in the model "
-              "(frontier, see evidence); fixed-size scratch arrays are unbounded lists in the model. Five defects found by this check "
+              "(frontier, see evidence). Constants of the SWAR routine, DigitCase, the DigitWriter buffer, both CHUNK_LENs and the tower-loop test "
+              "are regenerated from the source text on every run (Tie A). Debug (`{:?}`) output is compared with a closed-form text only. Five defects found by this check "
               "were repaired in /repo (`fixed:` lines of known_findings.jsonl); model and theorems describe the repaired code.")
 TECHNIQUE = "Lean 4 refinement proofs (positional-representation algebra, induction over digit/word lists, all W) + differential correspondence model vs real code + comparison with Rust primitive formatting"
